@@ -91,4 +91,17 @@ def handlePair (j : Json) : R Json := do
   let outs2 ← qs.mapM (query t2)
   pure (Json.mkObj [("res", "ok"), ("out", ofList outs), ("out2", ofList outs2)])
 
+/-- enumeration cost of the C16 query script: byte alignment of the type and of every field offset (base {0}),
+    plus `==` (both operands modulo 32) -/
+def scriptCost (t : Ty) : Nat :=
+  t.bls.cost 8 + ((fieldOffsets (.leaf [0]) t).map fun o => o.cost 8).sum + 2 * t.bls.cost 32
+
+/-- Suite `cost` (C16): the same shape at two capacity scales. -/
+def handleCost (j : Json) : R Json := do
+  let t ← parseTy (← field j "ty")
+  let t2 ← parseTy (← field j "ty2")
+  if !t.wf || !t2.wf then
+    return Json.mkObj [("res", "rejected")]
+  pure (Json.mkObj [("res", "ok"), ("cost", (scriptCost t : Nat)), ("cost2", (scriptCost t2 : Nat))])
+
 end DriverLayout
